@@ -4,6 +4,7 @@ import (
 	"fmt"
 	"go/ast"
 	"go/parser"
+	"go/printer"
 	"go/token"
 	"go/types"
 	"strings"
@@ -46,7 +47,7 @@ func (c *Ctx) WantTerm(fn *gf.Fn, pos token.Pos, tmpl string, args ...ast.Expr) 
 func (c *Ctx) typedExpr(fn *gf.Fn, pos token.Pos, tmpl string, args ...ast.Expr) (ast.Expr, *types.Info) {
 	src := tmpl
 	for i := len(args); i >= 1; i-- {
-		src = strings.ReplaceAll(src, fmt.Sprintf("$%d", i), "("+types.ExprString(args[i-1])+")")
+		src = strings.ReplaceAll(src, fmt.Sprintf("$%d", i), "("+fullExprString(c.P.Fset, args[i-1])+")")
 	}
 	e, err := parser.ParseExpr(src)
 	if err != nil {
@@ -237,7 +238,8 @@ func (c *Ctx) ReconcileRoles() *Reconcile {
 	}
 	if fi := c.Func(load.CtrlPkg, "newVersionedStatefulSetPod"); fi != nil {
 		sig := fi.Obj.Type().(*types.Signature)
-		if sig.Params().Len() == 5 && isIntT(sig.Params().At(4).Type()) && sig.Results().Len() == 1 {
+		// (the last parameter is the ordinal; what the others carry is resolved from a call site, see ctorRolesOf)
+		if sig.Params().Len() >= 2 && isIntT(sig.Params().At(sig.Params().Len()-1).Type()) && sig.Results().Len() == 1 {
 			r.Ctor = fi.Obj
 		} else {
 			c.Fail("newVersionedStatefulSetPod has unexpected shape %s", fi.Obj.Type())
@@ -655,4 +657,138 @@ func (c *Ctx) resolveAlias(fi *load.FuncInfo, fn *gf.Fn, st gf.State, e ast.Expr
 		return al
 	}
 	return e
+}
+
+// fullExprString renders e completely (types.ExprString elides composite literals and function bodies).
+func fullExprString(fset *token.FileSet, e ast.Expr) string {
+	var sb strings.Builder
+	if err := printer.Fprint(&sb, fset, e); err != nil {
+		return types.ExprString(e)
+	}
+	return strings.Join(strings.Fields(sb.String()), " ")
+}
+
+// ctorRoles: what the versioned constructor's parameters (or the fields of a parameter struct) carry, as
+// expressions valid inside the constructor: the set restored from the current revision, the set restored
+// from the update revision, the two revision names, the ordinal.
+type ctorRoles struct {
+	CurSet, UpdSet, CurRev, UpdRev, Ord ast.Expr
+}
+
+// ctorRolesOf resolves the roles from a call of the constructor in the reconcile function: a slot that is
+// handed `<current revision>.Name` is the current revision name, a slot that is handed the result of
+// ApplyRevision(set, <current revision>) is the current set, and so on. Slots are the parameters, or the
+// fields of a parameter of a struct type of the package (whether the call builds it in place or beforehand).
+func (c *Ctx) ctorRolesOf(r *Reconcile) *ctorRoles {
+	fi := c.P.FuncInfoOf(r.Ctor)
+	if fi == nil {
+		return nil
+	}
+	info := fi.Pkg.TypesInfo
+	host := r.FI
+	var call *ast.CallExpr
+	for _, cc := range callsIn(host.Decl.Body, true) {
+		if f := gf.StaticCallee(info, cc); f != nil && f.Origin() == r.Ctor {
+			call = cc
+			break
+		}
+	}
+	if call == nil {
+		return nil
+	}
+	var params []*ast.Ident
+	for _, f := range fi.Decl.Type.Params.List {
+		params = append(params, f.Names...)
+	}
+	if len(params) != len(call.Args) {
+		return nil
+	}
+	type slot struct {
+		acc ast.Expr // accessor inside the constructor
+		val ast.Expr // value at the call site
+	}
+	var slots []slot
+	for k, p := range params {
+		arg := ast.Unparen(call.Args[k])
+		st, isStruct := info.TypeOf(p).Underlying().(*types.Struct)
+		if ptr, ok := info.TypeOf(p).Underlying().(*types.Pointer); ok && !isStruct {
+			st, isStruct = ptr.Elem().Underlying().(*types.Struct)
+		}
+		named, _ := types.Unalias(info.TypeOf(p)).(*types.Named)
+		if ptr, ok := info.TypeOf(p).(*types.Pointer); ok {
+			named, _ = types.Unalias(ptr.Elem()).(*types.Named)
+		}
+		if !isStruct || named == nil || named.Obj().Pkg() == nil || named.Obj().Pkg().Path() != load.CtrlPkg {
+			slots = append(slots, slot{p, arg})
+			continue
+		}
+		// the literal: in place, behind &, or the single definition of a local
+		lit := arg
+		if id, ok := lit.(*ast.Ident); ok {
+			if d := defRHS(host, info, id); d != nil {
+				lit = ast.Unparen(d)
+			}
+		}
+		if u, ok := lit.(*ast.UnaryExpr); ok && u.Op == token.AND {
+			lit = ast.Unparen(u.X)
+		}
+		cl, ok := lit.(*ast.CompositeLit)
+		if !ok {
+			return nil
+		}
+		for i, el := range cl.Elts {
+			var fname string
+			var val ast.Expr
+			if kv, ok := el.(*ast.KeyValueExpr); ok {
+				if kid, ok := kv.Key.(*ast.Ident); ok {
+					fname, val = kid.Name, kv.Value
+				}
+			} else if i < st.NumFields() {
+				fname, val = st.Field(i).Name(), el
+			}
+			if fname == "" {
+				continue
+			}
+			acc, err := parser.ParseExpr(p.Name + "." + fname)
+			if err != nil {
+				continue
+			}
+			slots = append(slots, slot{acc, ast.Unparen(val)})
+		}
+	}
+	out := &ctorRoles{}
+	hfn := r.Fn
+	curName := c.WantTerm(hfn, call.Pos(), "$1.Name", r.CurRev)
+	updName := c.WantTerm(hfn, call.Pos(), "$1.Name", r.UpdRev)
+	apply := c.Func(load.CtrlPkg, "ApplyRevision")
+	for _, sl := range slots {
+		t := info.TypeOf(sl.val)
+		if t == nil {
+			continue
+		}
+		vt := hfn.Term(sl.val)
+		switch {
+		case isIntT(t):
+			out.Ord = sl.acc
+		case curName != nil && vt.Key() == curName.Key():
+			out.CurRev = sl.acc
+		case updName != nil && vt.Key() == updName.Key():
+			out.UpdRev = sl.acc
+		case isNamed(t, load.APIPkg, "StatefulSet") && apply != nil:
+			if src := assignedFromCall(host, info, sl.val); src != nil && len(src.Args) == 2 {
+				if f := gf.StaticCallee(info, src); f != nil && f.Origin() == apply.Obj {
+					switch hfn.Term(src.Args[1]).Key() {
+					case hfn.Term(r.CurRev).Key():
+						out.CurSet = sl.acc
+					case hfn.Term(r.UpdRev).Key():
+						out.UpdSet = sl.acc
+					}
+				}
+			}
+		}
+	}
+	if out.CurSet == nil || out.UpdSet == nil || out.CurRev == nil || out.UpdRev == nil || out.Ord == nil {
+		return nil
+	}
+	return out
 }
